@@ -27,7 +27,7 @@ from .common import Result
 PROP = "C10"
 RULE = ("bp stream: float images 2-D (3-40 px per side) and 3-D (3-12 px), kinds = k/16 grid, random "
         "doubles (also negative / scaled by 255, 1e-3), constant, single spike at a corner / edge / "
-        "interior, exact-tie spikes; float64 (C, Fortran, strided and reversed views) and float32; "
+        "interior, exact-tie spikes and probes of the default threshold 1/255; float64 (C, Fortran, strided and reversed views) and float32; "
         "lshort in {0,.25,.5,1,1.5,2,3,0.3,0.7,1.1} scalar or per axis, odd llong 1-15 scalar or per "
         "axis (> lshort), threshold in {0, default, k/8, amplitude*k/32, negative}, truncate in "
         "{2,3,4}; images smaller than the kernels included.  reject stream: lshort >= llong (equal, "
